@@ -120,7 +120,7 @@ Qed.
 
 Lemma step_wl_off gs es q c : (forall e, e_wl (enth es e) = false) -> step vf2b enum gs es q c = (step_p vf2b enum gs es q, c).
 Proof.
-  intros Hw. destruct q as [e i j|e h p|e h p|gm ch pa f ind nc ec names eattr|i j a b d|i j|i j ud fa a b d|fn ch pa o|r]; simpl; auto.
+  intros Hw. destruct q as [e i j|e h p|e h p|gm ch pa f ind nc ec names eattr|i j a b d|i j|i j ud fa a b d|fn ch pa o|r|mp e [i|] [j|]|t1 t2 i j ud fa a b d]; simpl; auto.
   - unfold isomorphic, isomorphic_p, iso_trace, iso_trace_p. destruct (n_nodes (gnth gs j) <? n_nodes (gnth gs i)).
     + rewrite pre_check_wl_off_any; auto. simpl. destruct (negb (pre_check_p (enth es e) (gnth gs i) (gnth gs j))); reflexivity.
     + rewrite pre_check_wl_off_any; auto. simpl. destruct (negb (pre_check_p (enth es e) (gnth gs j) (gnth gs i))); reflexivity.
@@ -128,6 +128,13 @@ Proof.
     destruct (negb (pre_check_p (enth es e) (gnth gs h) (gnth gs p))); [reflexivity|].
     destruct ((n_nodes (gnth gs p) =? n_nodes (gnth gs h)) && (n_edges (gnth gs p) =? n_edges (gnth gs h))); reflexivity.
   - rewrite pre_check_wl_off_any; auto.
+  - destruct mp.
+    + unfold get_mappings, get_mappings_p. rewrite pre_check_wl_off_any; auto. simpl.
+      destruct (negb (pre_check_p (enth es e) (gnth gs i) (gnth gs j))); [reflexivity|].
+      destruct ((n_nodes (gnth gs j) =? n_nodes (gnth gs i)) && (n_edges (gnth gs j) =? n_edges (gnth gs i))); reflexivity.
+    + unfold isomorphic, isomorphic_p. destruct (n_nodes (gnth gs j) <? n_nodes (gnth gs i)).
+      * rewrite pre_check_wl_off_any; auto. simpl. destruct (negb (pre_check_p (enth es e) (gnth gs i) (gnth gs j))); reflexivity.
+      * rewrite pre_check_wl_off_any; auto. simpl. destruct (negb (pre_check_p (enth es e) (gnth gs j) (gnth gs i))); reflexivity.
 Qed.
 
 Lemma enth_wl_off es : Forall (fun e => e_wl e = false) es -> forall k, e_wl (enth es k) = false.
